@@ -11,3 +11,13 @@ pub fn select_hook(
 ) -> super::super::verif_hooks::SnapVecH {
     super::super::verif_hooks::SnapVecH(select(synchronization_config, algo_config, &candidates.0))
 }
+
+/// Environment model of `select` (used as a `#[kani::stub]` replacement): empty selection; the
+/// `combine` model ignores it.
+pub fn select_model(
+    _synchronization_config: &SynchronizationConfig,
+    _algo_config: &AlgorithmConfig,
+    _candidates: &[SourceSnapshot],
+) -> Vec<SourceSnapshot> {
+    Vec::new()
+}
